@@ -382,7 +382,7 @@ META["C12"] = dict(
     "as_positional, config used); distinct by hash; non-trivial = the invocation reached the component or was rejected.",
     gates={
         "mon.invocations": g(1500, 15000),
-        "mon.required_omitted": g(100, 1000), "mon.same_named_functions": g(300, 3000), "mon.cli_after_failed_cli": g(100, 1000),
+        "mon.required_omitted": g(100, 1000), "mon.same_named_functions": g(300, 3000), "mon.method_parameter_named_config": g(150, 1500), "mon.cli_after_failed_cli": g(100, 1000),
         "st.kind.function": g(200, 2000), "st.kind.class": g(200, 2000), "st.kind.functions_list": g(100, 1000),
         "st.kind.functions_dict": g(30, 300), "st.kind.async_function": g(50, 500),
         "st.kind.class_in_list": g(100, 1000), "st.kind.class_in_dict": g(100, 1000),
